@@ -69,7 +69,7 @@ def odd_programs(tier: str) -> List[str]:
             seen.add(out[-1])
     if tier != "quick":
         odd = odd + named
-    for s in spaces.layered(odd, odd[:3], tier, l2_size=2 if tier == "quick" else 3, l3=tier != "quick", max_subs=1):
+    for s in spaces.layered(odd, odd[:3], tier, l2_size=2 if tier == "quick" else 3, l3=False, max_subs=1):
         if s not in seen:
             seen.add(s)
             out.append(s)
@@ -87,7 +87,7 @@ def items(tier: str) -> List[Any]:
             if s not in seen:
                 seen.add(s)
                 progs.append(s)
-    structural = c02.structural(tier)
+    structural = c02.structural("quick")
     if tier == "quick":
         structural = structural[::2]  # every second skeleton rendering (all of them in thorough)
     for s in structural + odd_programs(tier) + list(raw.dead_code(tier != "quick")):
